@@ -110,6 +110,11 @@ def check(acc, kind, case, label, m, names, rows, atoms):
         acc.sample({"marker": str(m), "names": names, "only": str(r), f"exclude({names[0]})": str(m.exclude(names[0])), "without_extras": str(m.without_extras())}, "elimination")
 
 
+def is_known(kind, case):
+    # S4a through markers: V >= lo merged with V < "X.postN" renders as ~=lo (see known_findings.json)
+    return "S4a-post-release-upper-bound" if O.s4a_case(case) else None
+
+
 def evaluate(kind, case, acc):
     from dep_logic.markers import parse_marker
 
